@@ -1,6 +1,7 @@
 """Shared by C01 / C02 / C05: build real ArgsFormat objects from the model's format records, run the real
 DefaultArgsParser, project the Args object into the model's result shape.  No verdicts here."""
 import json
+import os
 
 TYPE_OPT = {"str": 128, "bool": 256, "int": 512, "float": 1024}
 TYPE_ARG = {"str": 16, "bool": 32, "int": 64, "float": 128}
@@ -17,6 +18,10 @@ def raw_default(d):
         return None
     if d["t"] == "s":
         return txt(d["v"])
+    if d["t"] == "T":      # defaults that are Python values, not texts
+        return True
+    if d["t"] == "I":
+        return int(txt(d["v"]))
     return [txt(x["v"]) for x in d["v"]]
 
 
@@ -213,6 +218,33 @@ def make_raw(toks, form):
     return ArgvArgs(argv), (argv, before)
 
 
+_SERVER = []
+
+
+def pristine(f, toks, lenient, form):
+    """the same request answered by harness/props/pristine.py (fresh child process, other hash seed)"""
+    import atexit
+    import subprocess
+    import sys
+
+    from harness.engine import tlc as T
+
+    if not _SERVER:
+        env = dict(os.environ, PYTHONHASHSEED="1")
+        p = subprocess.Popen([sys.executable, "-m", "harness.props.pristine"], stdin=subprocess.PIPE, stdout=subprocess.PIPE, env=env, text=True,
+                             cwd=T.VERIF)
+        _SERVER.append(p)
+        atexit.register(lambda: (p.stdin.close(), p.wait(timeout=10)))
+    p = _SERVER[0]
+    try:
+        p.stdin.write(json.dumps({"f": f, "toks": list(toks), "lenient": lenient, "form": form}) + "\n")
+        p.stdin.flush()
+        line = p.stdout.readline()
+        return json.loads(line)
+    except Exception as e:  # noqa
+        raise T.MachineryError("pristine reference server failed: %r" % (e,))
+
+
 def event(f, fobj, tokens, lenient, parser=None, mut=None, recipe=None, form="argv"):
     """one request for ArgsParserTrace: observed on `parser` (fresh if None), on a fresh parser, in the other mode;
     also whether argv list / raw tokens / format listings survived the call untouched"""
@@ -225,16 +257,19 @@ def event(f, fobj, tokens, lenient, parser=None, mut=None, recipe=None, form="ar
     tok0 = list(raw.tokens)
     p = parser or DefaultArgsParser()
     extra = None
+    from harness.props.pristine import digest
+
+    msg = digest("")
     try:
         parsed = p.parse(raw, fobj, lenient)
         res, extra = project_args(f, parsed)
         err = "none"
     except Exception as e:  # noqa
-        err, res = ERR.get(type(e).__name__, "EXC:" + type(e).__name__), dict(NORES)
+        err, res, msg = ERR.get(type(e).__name__, "EXC:" + type(e).__name__), dict(NORES), digest(str(e))
     untouched = argv == argv0 and list(raw.tokens) == tok0 and listing(fobj) == before
     ferr, fres, _ = parse_once(DefaultArgsParser(), fobj, f, toks, lenient)
     oerr, ores, _ = parse_once(DefaultArgsParser(), fobj, f, toks, not lenient)
-    return {"cmd": command_route(f, fobj, toks, form), "f": f, "line": [list(t) for t in toks], "lenient": lenient, "obs": {"err": err, "result": res},
+    return {"pristine": pristine(f, toks, lenient, form), "msg": msg, "cmd": command_route(f, fobj, toks, form), "f": f, "line": [list(t) for t in toks], "lenient": lenient, "obs": {"err": err, "result": res},
             "fresh": {"err": ferr, "result": fres}, "other": {"err": oerr, "result": ores}, "mut": mut or {"kind": "", "j": 0},
             "untouched": untouched, "hasRecipe": recipe is not None, "recipe": recipe or [],
             "hasExtra": extra is not None, "extra": extra or dict(NOEXTRA)}
